@@ -410,6 +410,7 @@ func init() {
 			},
 		}
 		return &vf.Check{
+			RacePass: c10RacePass,
 			ID: "C10", Level: "model_checking",
 			Rule: "every scenario (future body x caller threads x operations) is explored by the controlled scheduler over the real lib/concurrent with hook points in the deliver->flag, check->set and take->re-deposit windows; on every complete execution: the body ran exactly once, all derefs agree, status predicates are monotone in real-time order, done? is true after any deref returned and after a successful cancel, cancelled? is true after a successful cancel and never without one, cancel does not return false on a running future, and nothing blocks forever except derefs of a future that legitimately never completes; non-trivial = scenario with a context switch inside an operation",
 			Assumptions: []string{"plain (unsynchronised) flag accesses are atomic under the cooperative scheduler; data races on them are the race pass's job", "the caller's context never ends in these scenarios"},
